@@ -275,4 +275,24 @@ VARIANTS = [
             "                break\n            new_id += 1\n",
      "new": "        new_id = next((new_id + i for i, packet_id in enumerate(self.injections) if packet_id < new_id + i),\n"
             "                      new_id + len(self.injections))\n"},
+    # ------------------------------------------------------------------ round 6
+    {"name": "R4 give-up completes the future before removing the entry", "file": BC, "expect": "C05.R4",
+     "old": "                del self.unacked_reliable[(msg.direction, msg.packet_id)]\n"
+            "                resend_info.completed.set_exception(TimeoutError(\"Exceeded resend limit\"))\n",
+     "new": "                gone = (msg.direction, msg.packet_id)\n"
+            "                resend_info.completed.set_exception(TimeoutError(\"Exceeded resend limit\"))\n"
+            "                self.unacked_reliable.pop(gone, None)\n"},
+    {"name": "P R4 give-up removes through a key local, then completes", "file": BC, "expect": "silent",
+     "old": "                del self.unacked_reliable[(msg.direction, msg.packet_id)]\n",
+     "new": "                gone = (msg.direction, msg.packet_id)\n                del self.unacked_reliable[gone]\n"},
+    {"name": "P R4 resend loop as a generator the circuit drains", "expect": "silent", "edits": [
+        {"file": BC, "old": "    def resend_unacked(self):\n", "new": "    def _due(self):\n"},
+        {"file": BC, "old": "            self._send_prepared_message(msg)\n\n    def send_acks",
+         "new": "            yield msg\n\n    def resend_unacked(self):\n        for due in self._due():\n"
+                "            self._send_prepared_message(due)\n\n    def send_acks"}]},
+    {"name": "R4 generator form: drained items sent through self.send", "expect": "C05.R4", "edits": [
+        {"file": BC, "old": "    def resend_unacked(self):\n", "new": "    def _due(self):\n"},
+        {"file": BC, "old": "            self._send_prepared_message(msg)\n\n    def send_acks",
+         "new": "            yield msg\n\n    def resend_unacked(self):\n        for due in self._due():\n"
+                "            self.send(due)\n\n    def send_acks"}]},
 ]
